@@ -278,14 +278,18 @@ class Observer(object):
         return False
 
 
+FALSY = [None, False, 0, 0.0, "", [], {}]
+# audit A1/A2/A3/A5: the destination NAME - blanks, the formats' delimiters, non-ASCII, long, sub-directory, looks like another type
+DEST_NAMES = ["dest", "my dest file", " lead", "d\u00e9st-\u0663", "a:b=c#d%s[x]", "None", "n" * 200, "sub dir/dest", "dest.json", "\U0001F600"]
 PRIORS = ["valid", "none", "hardlink", "symlink", "readonly", "rodir"]
 EXTRA_PRIORS = ["hardlink", "symlink", "readonly"] + (["rodir"] if os.geteuid() != 0 else [])   # chmod on a directory does not bind root
 
 
-def make_destination(obj, d, prior):
+def make_destination(obj, d, prior, name="dest"):
     """-> (dest, other): the destination path in the requested state, and the second name under which the same data is
     reachable (second hard link / symlink target), if any"""
-    dest, other = os.path.join(d, "dest"), None
+    dest, other = os.path.join(d, name), None
+    os.makedirs(os.path.dirname(dest), exist_ok=True)
     if prior == "valid":
         obj.dump(dest)
     elif prior == "hardlink":                     # e.g. the metadata file was hardlinked into another compose
@@ -301,7 +305,7 @@ def make_destination(obj, d, prior):
         os.chmod(dest, 0o444)
     elif prior == "rodir":
         os.mkdir(os.path.join(d, "ro"))
-        dest = os.path.join(d, "ro", "dest")
+        dest = os.path.join(d, "ro", os.path.basename(name))
         obj.dump(dest)
         os.chmod(os.path.join(d, "ro"), 0o555)
     return dest, other
@@ -417,6 +421,14 @@ class C18(Prop):
                             if hasattr(inst, f):
                                 yield {"op": "dump_fault", "args": {"fmt": fmt, "seed": seed, "prior": "valid" if (nth + len(f)) % 4 else "none",
                                                                     "fault": {"kind": "value", "cls": cls, "nth": nth, "field": f, "value": v}}}
+                        # audit A8: falsy values of EVERY type for every validated field (all of them in thorough, two in rotation in quick);
+                        # sets / tuples are not JSON-able case arguments and are left out
+                        fields = sorted(set(f for f, _ in self.invalid_values(cls) if hasattr(inst, f)))
+                        for fi, f in enumerate(fields):
+                            picks = FALSY if tier != "quick" else [FALSY[(fi + nth + k) % len(FALSY)] for k in (0, 3)]
+                            for v in picks:
+                                yield {"op": "dump_fault", "args": {"fmt": fmt, "seed": seed, "prior": "valid", "then": ["again", "repair", None][(fi + nth) % 3],
+                                                                    "fault": {"kind": "value", "cls": cls, "nth": nth, "field": f, "value": v}}}
                 if fmt in PAYLOAD_FAULTS:
                     for prior in ["valid", "none"] + EXTRA_PRIORS:
                         yield {"op": "dump_fault", "args": {"fmt": fmt, "seed": seed, "prior": prior, "fault": {"kind": "payload"}}}
@@ -445,13 +457,16 @@ class C18(Prop):
         restore = []
         try:
             other = None
+            name = DEST_NAMES[int(checklib.key_of([a["fmt"], a["fault"]])[:6], 16) % len(DEST_NAMES)] if a.get("names", True) else "dest"
+            dest = os.path.join(d, name)
+            os.makedirs(os.path.dirname(dest), exist_ok=True)
             if a["prior"] != "none":
-                dest, other = make_destination(obj, d, a["prior"])
+                dest, other = make_destination(obj, d, a["prior"], name)
             before = read_state(dest)
             meta_before = destination_meta(dest, other)
             # ---- apply the fault
             applied = True
-            kw = {}
+            kw, inst, old_value = {}, None, None
             if fault["kind"] == "inject":
                 inst, persistent = nth_instance(obj, fault["cls"], fault["nth"])
                 if inst is None:
@@ -471,6 +486,7 @@ class C18(Prop):
                 if inst is None:
                     applied = False
                 else:
+                    old_value = getattr(inst, fault["field"], None)
                     setattr(inst, fault["field"], fault["value"])
             elif fault["kind"] == "payload":
                 PAYLOAD_FAULTS[fmt](obj)
@@ -518,6 +534,24 @@ class C18(Prop):
                     result = {"err": type(e).__name__, "eff": ob.trace[-1] if ob.trace else None}
             after = read_state(dest)
             meta_after = destination_meta(dest, other)
+            then = None
+            if a.get("then") and result != "ok" and fault["kind"] == "value" and inst is not None:
+                if a["then"] == "again":             # the failed call once more: same refusal, file still untouched
+                    try:
+                        obj.dump(dest, **kw)
+                        then = {"step": "again", "result": "ok"}
+                    except Exception as e:
+                        then = {"step": "again", "result": {"err": type(e).__name__}}
+                    then["unchanged"] = read_state(dest) == before
+                else:                                # failed call -> repair -> success: the file now holds the object
+                    setattr(inst, fault["field"], old_value)
+                    try:
+                        obj.dump(dest, **kw)
+                        sio2 = io.StringIO()
+                        obj.dump(sio2, **kw)
+                        then = {"step": "repair", "result": "ok", "file_is_dumps": read_state(dest) == sio2.getvalue()}
+                    except Exception as e:
+                        then = {"step": "repair", "result": {"err": type(e).__name__}}
             for key in ("inode", "other_inode"):          # inode numbers differ from run to run: keep only "is it the same one"
                 if key in meta_before or key in meta_after:
                     same = meta_before.get(key) == meta_after.get(key)
@@ -526,7 +560,7 @@ class C18(Prop):
                     if key in meta_after:
                         meta_after[key] = "original" if same else "another"
             return {"applied": applied, "before": before, "after": after, "result": result, "trace": ob.trace,
-                    "meta_before": meta_before, "meta_after": meta_after,
+                    "meta_before": meta_before, "meta_after": meta_after, "then": then,
                     "outcomes": outcomes, "script": self.gen()["effects"]["owners"][FORMAT_CLASS[fmt]]}
         finally:
             for k, name, had, old in restore:
@@ -569,6 +603,12 @@ class C18(Prop):
 
     def oracle(self, case, real_out):
         r = real_out
+        t = r.get("then")
+        if t is not None and r["after"] == r["before"]:
+            if t["step"] == "again" and (t["result"] == "ok" or not t["unchanged"]):
+                return {"observed": {"first": r["result"], "second_call": t}, "required": "the refused dump refused again, destination still untouched", "kind": "second-call-differs"}
+            if t["step"] == "repair" and (t["result"] != "ok" or not t["file_is_dumps"]):
+                return {"observed": {"first": r["result"], "after_repair": t}, "required": "after repairing the field the dump succeeds and the file holds dumps()", "kind": "repair-fails"}
         if r["result"] == "ok":
             return None
         if r["after"] == r["before"] and r.get("meta_after") != r.get("meta_before"):
@@ -613,6 +653,11 @@ class C18(Prop):
         missing = sorted(want - self.covered)
         ctx["dist"]["inventory"] = {"validators_in_inventory": len(want), "injected": len(want & self.covered),
                                     "classes_reached": dict((f, sorted(c)) for f, c in self.reached_classes.items())}
+        extra = sorted(self.covered - want - set((c, m) for c, m in self.covered if c in ABSTRACT))
+        if extra:
+            fails.append({"case": {"op": "inventory", "args": {"not_in_inventory": extra}},
+                          "observed": "validators run by a dump that the generated inventory does not list: %s" % extra,
+                          "required": "validator inventory (translator) and the validators really run coincide", "kind": "coverage"})
         if missing:
             fails.append({"case": {"op": "inventory", "args": {"missing": missing}},
                           "observed": "validators of the generated inventory that no dump of the seven generated objects reaches: %s" % missing,
